@@ -4,7 +4,7 @@
    compartmental system is built from), [r] an arbitrary environment (parameter values, etas,
    epsilons, covariates, time; undefined symbols allowed), programs are arbitrary statement lists
    (reassignments, self references, piecewise, systems anywhere). *)
-From Coq Require Import QArith List Bool PArith Arith.
+From Coq Require Import QArith List Bool PArith Arith Permutation.
 From PV Require Import Base.PyData Base.Expr Base.Interp Base.Stmts C07.Model C07.Proofs.
 
 (* make_declarative leaves the final value of EVERY symbol unchanged on EVERY valid model (g_valid: every
@@ -247,6 +247,28 @@ Theorem split_joint_parameters :
       ~ In (fst (fst p)) (flat_map rdist_params (pm_rvs m))) ->
      In p (pm_params (split_joint inds m))).
 Proof. intros. split; [apply split_joint_params_sub | apply split_joint_params_kept]. Qed.
+
+(* RandomVariables.unjoin keeps the random variables: for every list of names to unjoin and every collection of
+   distributions (any sizes, also ill-formed matrices), the names after unjoin are a permutation of the names
+   before (same set, same multiplicities), and so are the pairs (name, symbols of its variance): every random
+   variable keeps its variance parameter (the diagonal entry of its block). *)
+Theorem unjoin_preserves_rv_names :
+  forall (inds : list id) (ds : list rdist),
+    Permutation (flat_map rdist_names (unjoin inds ds)) (flat_map rdist_names ds).
+Proof. exact unjoin_names_perm. Qed.
+
+Theorem unjoin_preserves_rv_variances :
+  forall (inds : list id) (ds : list rdist),
+    Permutation (flat_map rv_vars (unjoin inds ds)) (flat_map rv_vars ds).
+Proof. exact unjoin_vars_perm. Qed.
+
+(* hence split_joint_distribution changes neither the model function (split_joint_preserves_function) nor which
+   random variables exist and what their variances are *)
+Theorem split_joint_keeps_random_variables :
+  forall (inds : list id) (m : pmodel),
+    Permutation (flat_map rdist_names (pm_rvs (split_joint inds m))) (flat_map rdist_names (pm_rvs m)) /\
+    Permutation (flat_map rv_vars (pm_rvs (split_joint inds m))) (flat_map rv_vars (pm_rvs m)).
+Proof. intros. split; [apply unjoin_names_perm | apply unjoin_vars_perm]. Qed.
 
 (* the statement type of this model extends Base.Stmts: same semantics on embedded programs *)
 Theorem sexec_embeds_base :
